@@ -2013,6 +2013,8 @@ static void compile_expr(CG *cg, ASTNode *node) {
             uint32_t jf_instr = cg->code_size;
             uint32_t jf_off = emit_op(cg, OP_JMP_FALSE, (int32_t)0);
 
+            uint16_t arm_scope_start = cg->local_count;
+
             /* Match succeeded: bind the entire union to the pattern variable
              * so v.value / v.error etc. can access variant fields via UNION_FIELD */
             if (binding && binding[0] != '\0') {
@@ -2032,6 +2034,11 @@ static void compile_expr(CG *cg, ASTNode *node) {
              * preventing the statement-level POP from eating local slots. */
             if (node->as.match_expr.arm_bodies[i]->type == AST_BLOCK) {
                 emit_op(cg, OP_PUSH_VOID);
+            }
+
+            /* The arm ends: its binding keeps its slot but is no longer visible by name (as for blocks) */
+            for (uint16_t li = arm_scope_start; li < cg->local_count; li++) {
+                cg->locals[li].name = (char *)"";
             }
 
             /* Jump to end */
